@@ -214,6 +214,17 @@ def _on_worker_thread(fn):
 
 
 
+LOGGING = {'mode': 'quiet'}
+
+
+def silence():
+    """what harness code calls before it makes pycel do something noisy: logging is turned off - unless this shard
+    is one of those that run with another logging configuration on purpose"""
+    import logging
+    if LOGGING['mode'] == 'quiet':
+        logging.disable(logging.CRITICAL)
+
+
 def _debug_logging():
     """the process a model lives in may have its logging turned up: the 'pycel' logger at DEBUG with a handler that
     formats every record (and throws it away).  Nothing a property promises may depend on the logging level."""
@@ -223,6 +234,7 @@ def _debug_logging():
         def emit(self, record):
             record.getMessage()
     logging.disable(logging.NOTSET)
+    LOGGING['mode'] = 'debug'
     lg = logging.getLogger('pycel')
     lg.setLevel(logging.DEBUG)
     lg.addHandler(_Sink())
@@ -242,6 +254,8 @@ def shard_main(argv):
         import logging
         if replay or shard % 8 != 5:
             logging.disable(logging.CRITICAL)
+        else:
+            LOGGING['mode'] = 'default'
         # (one shard in eight runs with the logging configuration python starts with: warnings go to the shard's log)
         mod = importlib.import_module(f'vp.checks.{prop.lower()}')
         budget = float(os.environ.get('VP_BUDGET', mod.BUDGET[tier]))
@@ -258,6 +272,7 @@ def shard_main(argv):
                 if not ctx.violations:
                     # ... or from a shard with the logging configuration python starts with, or with debug logging on
                     logging.disable(logging.NOTSET)
+                    LOGGING['mode'] = 'default'
                     mod.replay(ctx, rec['case'])
                 if not ctx.violations:
                     _debug_logging()
